@@ -191,7 +191,7 @@ class Check:
         if not self.ensure_driver():
             return None
         with open(cases_path, "rb") as f:
-            env = dict(os.environ, VERIF_ZLIBD=os.path.join(self.scratch, "harness", "h") + " -zlibd")
+            env = dict(os.environ, VERIF_ZLIBD=os.path.join(self.scratch, "harness", "h") + " -zlibd", VERIF_PROP=self.prop)
             p = subprocess.run(["bash", "-c", "ulimit -s unlimited 2>/dev/null || ulimit -s 4000000 2>/dev/null; exec " + DRIVER], stdin=f, stdout=subprocess.PIPE, stderr=subprocess.PIPE, timeout=timeout, env=env)
         if p.returncode != 0:
             self.notes.append("driver failed: " + p.stderr.decode()[-2000:])
@@ -221,7 +221,7 @@ class Check:
                     seen.add(h)
                     if nontrivial(cmd, args, impl):
                         res["distinct_nontrivial"] += 1
-                if model != impl:
+                if model != impl and model != "-nomodel-":
                     res["tie_mismatch"].append({"line": i, "cmd": cmd, "args": args, "impl": impl, "model": model, "oracle": oracle})
                 if oracle.startswith("bad"):
                     res["oracle_bad"].append({"line": i, "cmd": cmd, "args": args, "impl": impl, "model": model, "oracle": oracle})
